@@ -18,6 +18,8 @@ import (
 	"sort"
 	"strings"
 	"sync"
+	"runtime"
+	"strconv"
 	"time"
 
 	"gosym/interp"
@@ -50,6 +52,12 @@ type Spec struct {
 	MaxInstr int64       `json:"max_instr,omitempty"`
 	Level    string      `json:"level,omitempty"`
 	FloatUF  bool        `json:"float_uf,omitempty"`
+	// Focus: package path prefixes whose synchronisation operations are
+	// scheduling points of the cooperative goroutine scheduler; MaxPreempt
+	// bounds the preemptions per path (default 2).
+	Focus      []string `json:"focus,omitempty"`
+	FocusFuncs []string `json:"focus_funcs,omitempty"` // e.g. "(*github.com/sarchlab/akita/v4/sim.SerialEngine).Run"
+	MaxPreempt *int     `json:"max_preempt,omitempty"`
 	// PrefixDepth/PrefixBudget: paths are counted per prefix of PrefixDepth choice
 	// decisions (e.g. per opcode row); a prefix that exceeds PrefixBudget paths is
 	// cut off and reported inconclusive instead of starving the other prefixes.
@@ -187,6 +195,15 @@ func decDecisions(s string) []interp.Decision {
 }
 
 func workerMain(args []string) {
+	if v := os.Getenv("GOSYM_STACKDUMP_AFTER"); v != "" {
+		n, _ := strconv.Atoi(v)
+		go func() {
+			time.Sleep(time.Duration(n) * time.Second)
+			buf := make([]byte, 1<<20)
+			k := runtime.Stack(buf, true)
+			os.Stderr.Write(buf[:k])
+		}()
+	}
 	fs := flag.NewFlagSet("worker", flag.ExitOnError)
 	id := fs.String("id", "", "check id")
 	fs.Parse(args)
@@ -197,6 +214,14 @@ func workerMain(args []string) {
 		defer pprof.StopCPUProfile()
 	}
 	interp.SetFloatUF(spec.FloatUF)
+	interp.SchedFocus = spec.Focus
+	interp.SchedFocusFn = map[string]bool{}
+	for _, f := range spec.FocusFuncs {
+		interp.SchedFocusFn[f] = true
+	}
+	if spec.MaxPreempt != nil {
+		interp.MaxPreempt = *spec.MaxPreempt
+	}
 	m := loadMachine(spec)
 	ctx := interp.SmtCtx()
 	solver, err := smt.NewSolver(ctx, spec.Solver, spec.Timeout)
@@ -686,7 +711,7 @@ func replayMain(args []string) {
 	if err := json.Unmarshal(b, &rf); err != nil {
 		fatal(err)
 	}
-	rp := newReplayer(spec.Entries)
+	rp := newReplayer(spec.Entries, spec.Focus, spec.FocusFuncs)
 	defer rp.close()
 	if rp.err != nil {
 		fatal(rp.err)
